@@ -1244,6 +1244,118 @@ CHECKS = {
 }
 
 
+# =============================================================== selftest
+
+DEVIATIONS = [
+    # (module, base cfg, overrides, invariant / property that must fail)
+    ("MC_Lifecycle", "MC_Lifecycle_q1", {"DropOrder": '"forward"'}, ("Restored", "LatestWins", "NoWildAtUser", "OnlyNamed")),
+    ("MC_Lifecycle", "MC_Lifecycle_q2", {"ResetCounterOnInstall": "FALSE"}, ("FreshCount",)),
+    ("MC_Lifecycle", "MC_Lifecycle_q1", {"MprotectSpan": '"firstPage"'}, ("NoFault",)),
+    ("MC_Lifecycle", "MC_Lifecycle_q1", {"VerifySilent": "FALSE"}, ("NoAbort",)),
+    ("MC_Lifecycle", "MC_Lifecycle_q1", {"SwallowPoison": "FALSE"}, ("Reusable",)),
+    ("MC_Lifecycle", "MC_Lifecycle_q1", {"FlushEntry": "FALSE"}, ("FlushedAtUser",)),
+    ("MC_Lifecycle", "MC_Lifecycle_q1", {"UnmapOnDrop": "FALSE"}, ("NoLeak",)),
+    ("MC_Lock", "MC_Lock_q", {"UnlockFirst": "TRUE"}, ("Mutex", "FreeMeansOrig", "PrevSeesOrig", "HolderIsLock")),
+    ("MC_Lock", "MC_Lock_q", {"SwallowPoison": "FALSE"}, ("Reusable", "HandOver", "NoStuck", "temporal")),
+    ("MC_Times", "MC_Times_q", {"AtomicCount": '"loadStore"'}, ("Accounting", "Budget", "ExitVerdict")),
+    ("MC_Times", "MC_Times_q", {"Compare": '"gt"'}, ("Budget", "Accounting")),
+    ("MC_Alloc", "MC_Alloc_q", {"Branch": '"a64"'}, ("InReach",)),
+    ("MC_Alloc", "MC_Alloc_q", {"UnmapRejected": "FALSE"}, ("NoLeftover",)),
+    ("MC_Geom", "MC_Geom_q", {"RangeTest": '"offByOne"'}, ("OnPath", "Arrives", "InRange")),
+    ("MC_Geom", "MC_Geom_q", {"MprotectSpan": '"firstPage"'}, ("NoFault",)),
+    ("MC_Geom", "MC_Geom_q", {"EndOffset": "0"}, ("OnPath", "Arrives", "InRange")),
+    ("MC_Async", "MC_Async_q", {"RestoreOnDrop": "FALSE"}, ("FakedOnlyWhileAlive", "LastFakeWins")),
+    ("MC_Async", "MC_Async_q", {"IsolateSiblings": "FALSE"}, ("LastFakeWins",)),
+    ("MC_Arms", "MC_Arms", {"AssignBeforeCount": "TRUE"}, ("SideEffects",)),
+]
+
+
+def corrupt_traces(groups):
+    """(name, property, corrupted event list): each must be REJECTED by Trace_Api under that property"""
+    import copy
+    # pick a scenario with two successful installs followed by a normal drop
+    def good(evs):
+        return (sum(1 for e in evs if e["ev"] == "InstallEnd" and e["outcome"] == "ok") >= 1
+                and any(e["ev"] == "DropEnd" for e in evs) and not any(e["ev"] == "UserPanic" for e in evs))
+    base = next(evs for evs in groups.values() if good(evs))
+    out = [("unmodified", "C02", base, True)]
+
+    def mod(name, prop, fn):
+        evs = copy.deepcopy(base)
+        fn(evs)
+        out.append((name, prop, evs, False))
+    def flip_restore(evs):
+        i = max(k for k, e in enumerate(evs) if e["ev"] == "Write" and e["region"] == "entry")
+        evs[i]["new"][0] ^= 0xFF
+    mod("flip one byte of the restored entry", "C02", flip_restore)
+    def wrong_call(evs):
+        i = next(k for k, e in enumerate(evs) if e["ev"] == "Call" and e["res"] not in ("orig",))
+        evs[i]["res"] = "orig"
+    mod("a call answered by the original while a fake is installed", "C02", wrong_call)
+    def drop_flush(evs):
+        i = next(k for k, e in enumerate(evs) if e["ev"] == "Flush" and any(c["name"].startswith("f") for c in e["covers"]))
+        del evs[i]
+    mod("entry flush removed", "C17", drop_flush)
+    def drop_tramp_flush(evs):
+        i = next(k for k, e in enumerate(evs) if e["ev"] == "Flush" and any(c["name"].startswith("m") for c in e["covers"]))
+        del evs[i]
+    mod("trampoline flush removed (entry written before its trampoline is flushed)", "C17", drop_tramp_flush)
+    def drop_munmap(evs):
+        i = max(k for k, e in enumerate(evs) if e["ev"] == "Munmap")
+        del evs[i]
+    mod("final munmap removed (leak)", "C12", drop_munmap)
+    def double_munmap(evs):
+        i = max(k for k, e in enumerate(evs) if e["ev"] == "Munmap")
+        evs.insert(i + 1, copy.deepcopy(evs[i]))
+    mod("trampoline unmapped twice", "C12", double_munmap)
+    def stray_write(evs):
+        i = next(k for k, e in enumerate(evs) if e["ev"] == "Write" and e["region"] == "entry")
+        w = copy.deepcopy(evs[i])
+        w["changed"] = [17]
+        evs.insert(i + 1, w)
+    mod("a write to the neighbour cell after the slot", "C03", stray_write)
+    def foreign_diff(evs):
+        i = next(k for k, e in enumerate(evs) if e["ev"] == "DropEnd")
+        evs.insert(i + 1, {"ev": "Diff", "phase": "after", "n": 1, "regions": [{"sym": "other", "off": 0, "len": 3}], "sc": evs[i]["sc"]})
+    mod("a foreign byte differs after the drop", "C03", foreign_diff)
+    def lock_released(evs):
+        i = max(k for k, e in enumerate(evs) if e["ev"] == "Mprotect")
+        evs[i]["lock"] = 0
+    mod("guard not held during the restore", "C04", lock_released)
+    def held_after(evs):
+        i = next(k for k, e in enumerate(evs) if e["ev"] == "DropEnd")
+        evs[i]["lock"] = 1
+    mod("guard still held after the scope exit", "C05", held_after)
+    return out
+
+
+def do_selftest():
+    ok = True
+    print("== deviation switches: TLC must find a counterexample")
+    for module, base, over, names in DEVIATIONS:
+        cfg = tlc.make_cfg(base, over, "dev_" + base + "_" + "_".join(over))
+        r = tlc.check(module, cfg, workers=TLC_WORKERS, timeout=1200, coverage=False)
+        v = r["violation"]
+        good = v is not None and (v["name"] in names or v["kind"] in ("temporal", "action-property") and ("temporal" in names or v["name"] in names))
+        print("  %-14s %-40s -> %s %s" % (module, over, (v or {}).get("name"), "ok" if good else "UNEXPECTED"))
+        ok = ok and good
+    print("== trace corruption: TLC must reject")
+    vlib.build_harness()
+    hists, gr = gen_behaviours("MC_LifecycleApi_q")
+    hists = [h for h in hists if sum(1 for x in h if x["act"] == "InstallOk") == 2 and any(x["act"] == "Drop" for x in h)][:6]
+    scen = [hist_to_scenario(h, i, "rust", 2, diff=False) for i, h in enumerate(hists, 1)]
+    groups, order, _ = vlib.run_harness("lifecycle", scen, "selftest_lifecycle")
+    for name, prop, evs, want_accept in corrupt_traces(groups):
+        cfgp = tlc.make_cfg("Trace_Api", {"Props": '{"%s", "ALL"}' % prop}, "Trace_Api_selftest")
+        tv = tlc.validate_traces("Trace_Api", cfgp, [(1, evs)], WORK, "trace_selftest", timeout=600)
+        accepted = 1 in tv["accepted"]
+        good = accepted == want_accept
+        print("  %-75s %s -> %s %s" % (name, prop, "accepted" if accepted else "rejected at %s" % (tv["progress"][1],), "ok" if good else "UNEXPECTED"))
+        ok = ok and good
+    print("selftest:", "PASS" if ok else "FAIL")
+    return 0 if ok else 1
+
+
 def do_setup():
     vlib.build_harness()
     out = os.path.join(WORK, "selfcheck.ndjson")
@@ -1267,6 +1379,8 @@ def main():
     try:
         if a.what == "setup":
             return do_setup()
+        if a.what == "selftest":
+            return do_selftest()
         if a.what in CHECKS:
             return CHECKS[a.what](a.what, a.tier)
         print("unknown check %s" % a.what)
